@@ -238,6 +238,7 @@ struct Case {
     req: Value,
     route: String,
     connected: bool,
+    blackhole: bool, // not connected: the handshake never completes (instead of being refused)
     events: Vec<Ev>,
     timeout_ms: u64, // for entry = core; the handler's is fixed
     ticks: u64,
@@ -297,6 +298,31 @@ fn refusing_port() -> (i32, SocketAddr) {
     }
 }
 
+/// A listening socket whose accept queue is full and never drained: further SYNs are dropped by the
+/// kernel, so a connect to it neither succeeds nor fails. Returns the fd, the address and the fillers.
+fn blackhole_port() -> (i32, SocketAddr, Vec<TcpStream>) {
+    unsafe {
+        let fd = libc::socket(libc::AF_INET, libc::SOCK_STREAM, 0);
+        let mut sa: libc::sockaddr_in = std::mem::zeroed();
+        sa.sin_family = libc::AF_INET as u16;
+        sa.sin_addr.s_addr = u32::from_ne_bytes([127, 0, 0, 1]);
+        sa.sin_port = 0;
+        libc::bind(fd, &sa as *const _ as *const libc::sockaddr, std::mem::size_of::<libc::sockaddr_in>() as u32);
+        libc::listen(fd, 0);
+        let mut len = std::mem::size_of::<libc::sockaddr_in>() as u32;
+        libc::getsockname(fd, &mut sa as *mut _ as *mut libc::sockaddr, &mut len);
+        let addr = SocketAddr::from(([127, 0, 0, 1], u16::from_be(sa.sin_port)));
+        let mut fillers = vec![];
+        for _ in 0..8 {
+            match TcpStream::connect_timeout(&addr, Duration::from_millis(150)) {
+                Ok(s) => fillers.push(s),
+                Err(_) => break, // the queue is full: from now on connects hang
+            }
+        }
+        (fd, addr, fillers)
+    }
+}
+
 fn set_linger0(s: &TcpStream) {
     use std::os::unix::io::AsRawFd;
     let l = libc::linger { l_onoff: 1, l_linger: 0 };
@@ -343,9 +369,14 @@ fn run_case(c: &Case, state: &Arc<AppState>) -> Obs {
     let release = Arc::new(AtomicBool::new(false));
 
     // upstream
+    let mut _fillers = vec![];
     let (addr, refuse_fd, listener) = if c.connected {
         let l = TcpListener::bind("127.0.0.1:0").expect("bind");
         (l.local_addr().unwrap(), -1, Some(l))
+    } else if c.blackhole {
+        let (fd, a, f) = blackhole_port();
+        _fillers = f;
+        (a, fd, None)
     } else {
         let (fd, a) = refusing_port();
         (a, fd, None)
@@ -527,6 +558,7 @@ fn replay_job(v: Value, timeout_ms: u64, ticks: u64) -> ReplayJob {
         req: v["req"].clone(),
         route: v["route"].as_str().unwrap_or("/*").to_string(),
         connected: v["connected"].as_bool().unwrap_or(true),
+        blackhole: v["kind"] == "blackhole",
         events,
         timeout_ms,
         ticks,
@@ -545,7 +577,8 @@ fn judge(j: &ReplayJob, o: &Obs) -> Value {
         if let Some(alt) = v["alt"].as_object() {
             let mut names: Vec<&String> = alt.keys().collect();
             names.sort();
-            let ex: Vec<&String> = names.into_iter().filter(|d| ans_eq(&o.got, &alt[*d])).collect();
+            // a deviation explains the observation only if its prediction differs from the ideal model's answer
+            let ex: Vec<&String> = names.into_iter().filter(|d| ans_eq(&o.got, &alt[*d]) && !ans_eq(&alt[*d], &v["base"])).collect();
             if !ex.is_empty() {
                 dev = json!(ex);
             }
@@ -570,7 +603,7 @@ fn replay(timeout_ms: u64, ticks: u64, threads: usize) {
         while r["ok"] == false && r["devs"].is_null() && tries < 2 {
             tries += 1;
             let slow = Case { timeout_ms: if timed { j.case.timeout_ms * 3 } else { j.case.timeout_ms }, events: j.case.events.clone(), entry: j.case.entry.clone(),
-                              req: j.case.req.clone(), route: j.case.route.clone(), connected: j.case.connected, ticks: j.case.ticks };
+                              req: j.case.req.clone(), route: j.case.route.clone(), connected: j.case.connected, blackhole: j.case.blackhole, ticks: j.case.ticks };
             o = run_case(&slow, &st);
             r = judge(j, &o);
             r["retried"] = json!(tries);
@@ -699,7 +732,7 @@ fn cuts(timeout_ms: u64, threads: usize, stall_mod: usize, nseeds: usize) {
                 let entry = if sid % 7 == 3 && term == "eof" { "handler" } else { "core" };
                 jobs.push(CutJob {
                     id: format!("s{}c{}{}", sid, cut, term),
-                    case: Case { entry: entry.into(), req: req.clone(), route: "/r*".into(), connected: true, events, timeout_ms, ticks: 3 },
+                    case: Case { entry: entry.into(), req: req.clone(), route: "/r*".into(), connected: true, blackhole: false, events, timeout_ms, ticks: 3 },
                     segs: tokenise(&segs, variant, cut),
                     term: term.into(),
                 });
